@@ -481,6 +481,18 @@ func (fx *FuncExec) Merge(ins []incoming, what string) *State {
 		}
 	}
 	for k := range keys {
+		// captured variables and pointer-parameter cells are created lazily at their first use: a path
+		// that never touched one still holds its entry value (not "no value")
+		switch k.(type) {
+		case *ssa.FreeVar, *ssa.Parameter:
+			if pt, ok := k.Type().Underlying().(*types.Pointer); ok {
+				for _, in := range ins {
+					if _, have := in.st.cells[k]; !have {
+						fx.Load(in.st, &Loc{Kind: LCell, Cell: k, T: pt.Elem()})
+					}
+				}
+			}
+		}
 		var vs []Val
 		var cs []string
 		for _, in := range ins {
